@@ -276,13 +276,35 @@ deriving Repr, DecidableEq
 
 def regionBase (i : Nat) : Nat := (i + 1) * 2 ^ 32
 
+/-- `k v`, with `v` evaluated first.  (The identity, see `strictNat_eq`; it only makes evaluation inside
+    the Lean kernel — the `decide +kernel` tests of Props/C05.lean — strict instead of lazy.) -/
+@[inline] def strictNat {α : Type} (v : Nat) (k : Nat → α) : α :=
+  match v with
+  | 0 => k 0
+  | .succ n => k (.succ n)
+
+theorem strictNat_eq {α : Type} (v : Nat) (k : Nat → α) : strictNat v k = k v := by
+  cases v <;> rfl
+
+/-- a list with every element evaluated first (the identity, see `strictList_eq`) -/
+def strictList {α : Type} (l : List Nat) (k : List Nat → α) : α :=
+  match l with
+  | [] => k []
+  | x :: xs => strictNat x (fun x => strictList xs (fun xs => k (x :: xs)))
+
+theorem strictList_eq {α : Type} (l : List Nat) (k : List Nat → α) : strictList l k = k l := by
+  induction l generalizing k with
+  | nil => rfl
+  | cons x xs ih => simp [strictList, strictNat_eq, ih]
+
 def getG (s : State) (n : Nat) : Except String Nat :=
   match s.gpr[n]? with
   | some v => .ok v
   | none => .error "no such general register"
 
 def setG (s : State) (n v : Nat) : Except String State :=
-  if n < s.gpr.length then .ok { s with gpr := s.gpr.set n v } else .error "no such general register"
+  if n < s.gpr.length then strictNat v (fun v => .ok { s with gpr := s.gpr.set n v })
+  else .error "no such general register"
 
 def getV (s : State) (n : Nat) : Except String Nat :=
   match s.vec[n]? with
@@ -290,7 +312,8 @@ def getV (s : State) (n : Nat) : Except String Nat :=
   | none => .error "no such vector register"
 
 def setV (s : State) (n v : Nat) : Except String State :=
-  if n < s.vec.length then .ok { s with vec := s.vec.set n v } else .error "no such vector register"
+  if n < s.vec.length then strictNat v (fun v => .ok { s with vec := s.vec.set n v })
+  else .error "no such vector register"
 
 def getK (s : State) (n : Nat) : Except String Nat :=
   match s.kreg[n]? with
@@ -298,7 +321,8 @@ def getK (s : State) (n : Nat) : Except String Nat :=
   | none => .error "no such opmask register"
 
 def setK (s : State) (n v : Nat) : Except String State :=
-  if n < s.kreg.length then .ok { s with kreg := s.kreg.set n v } else .error "no such opmask register"
+  if n < s.kreg.length then strictNat v (fun v => .ok { s with kreg := s.kreg.set n v })
+  else .error "no such opmask register"
 
 def lookup (l : List (String × Nat)) (name : String) : Option Nat :=
   match l with
@@ -332,8 +356,9 @@ def writeMem (s : State) (addr : Nat) (bs : List Nat) : Except String State :=
   | some reg =>
     if !reg.writable then .error ("write to read-only region " ++ reg.name) else
     if off + bs.length ≤ reg.bytes.length then
-      let reg' : Region := ⟨reg.name, reg.bytes.take off ++ bs ++ reg.bytes.drop (off + bs.length), true⟩
-      .ok { s with mem := s.mem.set (r - 1) reg' }
+      strictList bs (fun bs =>
+        let reg' : Region := ⟨reg.name, reg.bytes.take off ++ bs ++ reg.bytes.drop (off + bs.length), true⟩
+        .ok { s with mem := s.mem.set (r - 1) reg' })
     else .error ("write past the end of region " ++ reg.name)
 
 /-- little-endian value of `n` bytes at `addr` -/
@@ -457,9 +482,9 @@ def storeMasked (s : State) (addr k v : Nat) (n : Nat) : Except String State :=
   (List.range n).foldlM (fun s j =>
     if (k >>> j) % 2 = 1 then storeLE s (addr + 4 * j) 4 (lane 32 j v) else pure s) s
 
-def stepD (s : State) (i : DInstr) : Except String (State × Next) :=
+/-- a non-branching instruction -/
+def execD (s : State) (i : DInstr) : Except String State :=
   let vl := i.vw
-  let fall (r : Except String State) : Except String (State × Next) := r.map (fun s => (s, Next.fall))
   match i.mn, i.ops with
   /- ---- vector: three registers ---- -/
   | mn@(.VPXORD), [.reg (.vec a), .reg (.vec b), .reg (.vec d)]
@@ -471,7 +496,7 @@ def stepD (s : State) (i : DInstr) : Except String (State × Next) :=
   | mn@(.VPUNPCKLQDQ), [.reg (.vec a), .reg (.vec b), .reg (.vec d)]
   | mn@(.VPUNPCKHQDQ), [.reg (.vec a), .reg (.vec b), .reg (.vec d)]
   | mn@(.VPERMQ), [.reg (.vec a), .reg (.vec b), .reg (.vec d)] =>
-    if !validVl vl then .error "vector length" else fall do
+    if !validVl vl then .error "vector length" else do
     let av ← getV s a
     let bv ← getV s b
     match vec3 mn vl av bv with
@@ -479,7 +504,7 @@ def stepD (s : State) (i : DInstr) : Except String (State × Next) :=
     | none => badShape
   | mn@(.VPSHUFB), [.reg (.vec a), .reg (.vec b), .reg (.k k), .reg (.vec d)]
   | mn@(.VPERMQ), [.reg (.vec a), .reg (.vec b), .reg (.k k), .reg (.vec d)] =>
-    if !validVl vl then .error "vector length" else fall do
+    if !validVl vl then .error "vector length" else do
     let av ← getV s a
     let bv ← getV s b
     let kv ← getK s k
@@ -494,7 +519,7 @@ def stepD (s : State) (i : DInstr) : Except String (State × Next) :=
   | mn@(.VPSRLW), [.imm v, .reg (.vec a), .reg (.vec d)]
   | mn@(.VPSLLQ), [.imm v, .reg (.vec a), .reg (.vec d)]
   | mn@(.VPERMQ), [.imm v, .reg (.vec a), .reg (.vec d)] =>
-    if !validVl vl then .error "vector length" else fall do
+    if !validVl vl then .error "vector length" else do
     let av ← getV s a
     match vecImm mn vl (imm64 v % 256) av with
     | some r => setV s d r
@@ -504,7 +529,7 @@ def stepD (s : State) (i : DInstr) : Except String (State × Next) :=
   | mn@(.VGF2P8AFFINEINVQB), [.imm v, .reg (.vec a), .reg (.vec b), .reg (.vec d)]
   | mn@(.VPCLMULQDQ), [.imm v, .reg (.vec a), .reg (.vec b), .reg (.vec d)]
   | mn@(.VALIGND), [.imm v, .reg (.vec a), .reg (.vec b), .reg (.vec d)] =>
-    if !validVl vl then .error "vector length" else fall do
+    if !validVl vl then .error "vector length" else do
     let av ← getV s a
     let bv ← getV s b
     match vecImm2 mn vl (imm64 v % 256) av bv with
@@ -512,99 +537,99 @@ def stepD (s : State) (i : DInstr) : Except String (State × Next) :=
     | none => badShape
   /- ---- vector moves ---- -/
   | .VMOVDQU32, [.mem base idx sc disp, .reg (.vec d)] =>
-    if !validVl vl then .error "vector length" else fall do
+    if !validVl vl then .error "vector length" else do
     let addr ← effAddr s base idx sc disp
     let v ← loadLE s addr vl
     setV s d v
   | .VMOVDQU32, [.mem base idx sc disp, .reg (.k k), .reg (.vec d)] =>
-    if !validVl vl then .error "vector length" else fall do
+    if !validVl vl then .error "vector length" else do
     let addr ← effAddr s base idx sc disp
     let kv ← getK s k
     let old ← getV s d
     let ds ← loadMasked s addr kv old (vl / 4)
     setV s d (unlanes 32 ds)
   | .VMOVDQU32, [.reg (.vec a), .mem base idx sc disp] =>
-    if !validVl vl then .error "vector length" else fall do
+    if !validVl vl then .error "vector length" else do
     let addr ← effAddr s base idx sc disp
     let av ← getV s a
     storeLE s addr vl av
   | .VMOVDQU32, [.reg (.vec a), .reg (.k k), .mem base idx sc disp] =>
-    if !validVl vl then .error "vector length" else fall do
+    if !validVl vl then .error "vector length" else do
     let addr ← effAddr s base idx sc disp
     let av ← getV s a
     let kv ← getK s k
     storeMasked s addr kv av (vl / 4)
   | .VMOVDQA64, [.reg (.vec a), .reg (.vec d)]
   | .VMOVAPD, [.reg (.vec a), .reg (.vec d)] =>
-    if !validVl vl then .error "vector length" else fall do
+    if !validVl vl then .error "vector length" else do
     let av ← getV s a
     setV s d (av % 2 ^ (8 * vl))
   | .VPBROADCASTD, [.reg (.vec a), .reg (.vec d)] =>
-    if !validVl vl then .error "vector length" else fall do
+    if !validVl vl then .error "vector length" else do
     let av ← getV s a
     setV s d (unlanes 32 (List.replicate (vl / 4) (av % 2 ^ 32)))
   | .VPBROADCASTD, [.reg (.gpr a), .reg (.vec d)] =>
-    if !validVl vl then .error "vector length" else fall do
+    if !validVl vl then .error "vector length" else do
     let av ← getG s a
     setV s d (unlanes 32 (List.replicate (vl / 4) (av % 2 ^ 32)))
   | .VBROADCASTI32X2, [.mem base idx sc disp, .reg (.vec d)] =>
-    if !validVl vl then .error "vector length" else fall do
+    if !validVl vl then .error "vector length" else do
     let addr ← effAddr s base idx sc disp
     let v ← loadLE s addr 8
     setV s d (unlanes 64 (List.replicate (vl / 8) v))
   | .VBROADCASTI32X4, [.mem base idx sc disp, .reg (.vec d)] =>
-    if !(vl == 32 || vl == 64) then .error "vector length" else fall do
+    if !(vl == 32 || vl == 64) then .error "vector length" else do
     let addr ← effAddr s base idx sc disp
     let v ← loadLE s addr 16
     setV s d (unlanes 128 (List.replicate (vl / 16) v))
   /- legacy SSE forms: bits 128… of the register are kept -/
-  | .MOVL, [.mem base idx sc disp, .reg (.vec d)] => fall do      -- MOVD xmm, m32
+  | .MOVL, [.mem base idx sc disp, .reg (.vec d)] => do      -- MOVD xmm, m32
     let addr ← effAddr s base idx sc disp
     let v ← loadLE s addr 4
     let old ← getV s d
     setV s d (old - old % 2 ^ 128 + v)
-  | .MOVQ, [.reg (.gpr a), .reg (.vec d)] => fall do               -- MOVQ xmm, r64
+  | .MOVQ, [.reg (.gpr a), .reg (.vec d)] => do               -- MOVQ xmm, r64
     let v ← getG s a
     let old ← getV s d
     setV s d (old - old % 2 ^ 128 + v % 2 ^ 64)
-  | .PSLLO, [.imm v, .reg (.vec d)] => fall do                     -- PSLLDQ xmm, imm8
+  | .PSLLO, [.imm v, .reg (.vec d)] => do                     -- PSLLDQ xmm, imm8
     let old ← getV s d
     setV s d (old - old % 2 ^ 128 + ((old % 2 ^ 128) <<< (8 * (imm64 v % 256))) % 2 ^ 128)
-  | .KMOVW, [.reg (.gpr a), .reg (.k d)] => fall do
+  | .KMOVW, [.reg (.gpr a), .reg (.k d)] => do
     let v ← getG s a
     setK s d (v % 2 ^ 16)
   /- ---- general moves ---- -/
-  | .LEAQ, [.sym name off, .reg (.gpr d)] => fall do
+  | .LEAQ, [.sym name off, .reg (.gpr d)] => do
     match lookup s.syms name with
     | some a => setG s d (a + off)
     | none => .error ("unknown symbol " ++ name)
-  | .MOVQ, [.frame name _, .reg (.gpr d)] => fall do
+  | .MOVQ, [.frame name _, .reg (.gpr d)] => do
     match lookup s.frame name with
     | some v => setG s d v
     | none => .error ("unknown frame slot " ++ name)
-  | .MOVQ, [.imm v, .frame name _] => fall do
+  | .MOVQ, [.imm v, .frame name _] => do
     match setSlot s.frame name (fun _ => imm64 v) with
     | some f => pure { s with frame := f }
     | none => .error ("unknown frame slot " ++ name)
-  | .MOVQ, [.reg (.gpr a), .frame name _] => fall do
+  | .MOVQ, [.reg (.gpr a), .frame name _] => do
     let v ← getG s a
     match setSlot s.frame name (fun _ => v) with
     | some f => pure { s with frame := f }
     | none => .error ("unknown frame slot " ++ name)
-  | .MOVL, [.reg (.gpr a), .frame name _] => fall do
+  | .MOVL, [.reg (.gpr a), .frame name _] => do
     let v ← getG s a
     match setSlot s.frame name (fun old => old - old % 2 ^ 32 + v % 2 ^ 32) with
     | some f => pure { s with frame := f }
     | none => .error ("unknown frame slot " ++ name)
-  | .MOVQ, [.imm v, .reg (.gpr d)] => fall (setG s d (imm64 v))
-  | .MOVL, [.imm v, .reg (.gpr d)] => fall (setG s d (imm64 v % 2 ^ 32))
-  | .MOVQ, [.reg (.gpr a), .reg (.gpr d)] => fall do
+  | .MOVQ, [.imm v, .reg (.gpr d)] => setG s d (imm64 v)
+  | .MOVL, [.imm v, .reg (.gpr d)] => setG s d (imm64 v % 2 ^ 32)
+  | .MOVQ, [.reg (.gpr a), .reg (.gpr d)] => do
     let v ← getG s a
     setG s d v
   | mn@(.MOVQ), [.mem base idx sc disp, .reg (.gpr d)]
   | mn@(.MOVL), [.mem base idx sc disp, .reg (.gpr d)]
   | mn@(.MOVW), [.mem base idx sc disp, .reg (.gpr d)]
-  | mn@(.MOVB), [.mem base idx sc disp, .reg (.gpr d)] => fall do
+  | mn@(.MOVB), [.mem base idx sc disp, .reg (.gpr d)] => do
     let w := aluWidth mn
     let addr ← effAddr s base idx sc disp
     let v ← loadLE s addr w
@@ -613,13 +638,13 @@ def stepD (s : State) (i : DInstr) : Except String (State × Next) :=
   | mn@(.MOVQ), [.reg (.gpr a), .mem base idx sc disp]
   | mn@(.MOVL), [.reg (.gpr a), .mem base idx sc disp]
   | mn@(.MOVW), [.reg (.gpr a), .mem base idx sc disp]
-  | mn@(.MOVB), [.reg (.gpr a), .mem base idx sc disp] => fall do
+  | mn@(.MOVB), [.reg (.gpr a), .mem base idx sc disp] => do
     let w := aluWidth mn
     let addr ← effAddr s base idx sc disp
     let v ← getG s a
     storeLE s addr w v
   | mn@(.MOVQ), [.imm v, .mem base idx sc disp]
-  | mn@(.MOVB), [.imm v, .mem base idx sc disp] => fall do
+  | mn@(.MOVB), [.imm v, .mem base idx sc disp] => do
     let w := aluWidth mn
     let addr ← effAddr s base idx sc disp
     storeLE s addr w (imm64 v)
@@ -628,26 +653,26 @@ def stepD (s : State) (i : DInstr) : Except String (State × Next) :=
   | mn@(.SUBQ), [.imm v, .reg (.gpr d)]
   | mn@(.ANDQ), [.imm v, .reg (.gpr d)]
   | mn@(.SHLQ), [.imm v, .reg (.gpr d)]
-  | mn@(.SHRQ), [.imm v, .reg (.gpr d)] => fall do
+  | mn@(.SHRQ), [.imm v, .reg (.gpr d)] => do
     let old ← getG s d
     let (r, f) ← alu mn 8 (imm64 v) old s.flags
     let s ← setG s d r
     pure { s with flags := f }
   | mn@(.ADDQ), [.reg (.gpr a), .reg (.gpr d)]
-  | mn@(.SUBQ), [.reg (.gpr a), .reg (.gpr d)] => fall do
+  | mn@(.SUBQ), [.reg (.gpr a), .reg (.gpr d)] => do
     let src ← getG s a
     let old ← getG s d
     let (r, f) ← alu mn 8 src old s.flags
     let s ← setG s d r
     pure { s with flags := f }
-  | mn@(.ORB), [.reg (.gpr a), .reg (.gpr d)] => fall do
+  | mn@(.ORB), [.reg (.gpr a), .reg (.gpr d)] => do
     let src ← getG s a
     let old ← getG s d
     let (r, f) ← alu mn 1 (src % 256) (old % 256) s.flags
     let s ← setG s d (mergeG 1 old r)
     pure { s with flags := f }
   | mn@(.ORB), [.mem base idx sc disp, .reg (.gpr d)]
-  | mn@(.ORQ), [.mem base idx sc disp, .reg (.gpr d)] => fall do
+  | mn@(.ORQ), [.mem base idx sc disp, .reg (.gpr d)] => do
     let w := aluWidth mn
     let addr ← effAddr s base idx sc disp
     let src ← loadLE s addr w
@@ -656,7 +681,7 @@ def stepD (s : State) (i : DInstr) : Except String (State × Next) :=
     let s ← setG s d (mergeG w old r)
     pure { s with flags := f }
   | mn@(.XORB), [.reg (.gpr a), .mem base idx sc disp]
-  | mn@(.XORQ), [.reg (.gpr a), .mem base idx sc disp] => fall do
+  | mn@(.XORQ), [.reg (.gpr a), .mem base idx sc disp] => do
     let w := aluWidth mn
     let addr ← effAddr s base idx sc disp
     let src ← getG s a
@@ -664,37 +689,44 @@ def stepD (s : State) (i : DInstr) : Except String (State × Next) :=
     let (r, f) ← alu mn w (src % 2 ^ (8 * w)) old s.flags
     let s ← storeLE s addr w r
     pure { s with flags := f }
-  | .CMPQ, [.reg (.gpr a), .imm v] => fall do
+  | .CMPQ, [.reg (.gpr a), .imm v] => do
     let x ← getG s a
     pure { s with flags := (subF 8 x (imm64 v)).2 }
-  | .CMPQ, [.reg (.gpr a), .reg (.gpr b)] => fall do
+  | .CMPQ, [.reg (.gpr a), .reg (.gpr b)] => do
     let x ← getG s a
     let y ← getG s b
     pure { s with flags := (subF 8 x y).2 }
-  /- ---- control ---- -/
-  | .JMP, [.target pc] => .ok (s, .jump pc)
-  | mn@(.JEQ), [.target pc]
-  | mn@(.JNE), [.target pc]
-  | mn@(.JLT), [.target pc]
-  | mn@(.JGE), [.target pc]
-  | mn@(.JGT), [.target pc]
-  | mn@(.JLE), [.target pc] => do
-    let c ← cond mn s.flags
-    pure (s, if c then .jump pc else .fall)
-  | .NOP, [] => .ok (s, .fall)
-  | .RET, [] => .ok (s, .ret)
+  | .NOP, [] => .ok s
   | _, _ => badShape
+
+/-- the branching mnemonics -/
+def Mn.isControl (mn : Mn) : Bool :=
+  match mn with
+  | .JMP | .JEQ | .JNE | .JLT | .JGE | .JGT | .JLE | .RET => true
+  | _ => false
+
+/-- one decoded instruction: the new state and where to go -/
+def stepD (s : State) (i : DInstr) : Except String (State × Next) :=
+  if i.mn.isControl then
+    match i.mn, i.ops with
+    | .JMP, [.target pc] => .ok (s, .jump pc)
+    | .RET, [] => .ok (s, .ret)
+    | mn, [.target pc] => do
+      let c ← cond mn s.flags
+      pure (s, if c then .jump pc else .fall)
+    | _, _ => badShape
+  else
+    (execD s i).map (fun s' => (s', Next.fall))
 
 /-- one instruction of a listing -/
 def step (s : State) (i : Instr) : Except String (State × Next) := do
   let d ← decode i
   stepD s d
 
-/-- `exec`: the state after a non-branching instruction (branches and RET are an error here) -/
+/-- `exec`: the state after a non-branching instruction of a listing (a branch or RET is an error here) -/
 def exec (s : State) (i : Instr) : Except String State := do
-  match ← step s i with
-  | (s', .fall) => pure s'
-  | _ => .error "control transfer"
+  let d ← decode i
+  if d.mn.isControl then .error "control transfer" else execD s d
 
 /-! ## 7. Running a routine -/
 
